@@ -242,3 +242,36 @@ func SamePkgFamily(ns string) (main, inc *idl.File, ways []*Way) {
 	add("samepkg_local_enum_value", idl.EnumT(me), idl.VE(me, me.Values[0]))
 	return
 }
+
+
+// CollideFamily: constants whose IDL names differ but whose Go names coincide
+// (max_size / MaxSize / Max_size), locally and in an include; every way refers
+// to one of them.
+func CollideFamily(ns string) (main, inc *idl.File, ways []*Way) {
+	i32, str := idl.T(idl.I32), idl.T(idl.String)
+	inc = &idl.File{Path: "cinc.thrift", Namespaces: []*idl.Namespace{{Lang: "go", Name: ns + ".cinc"}}}
+	i1 := &idl.Const{Name: "burst_rate", Type: i32, Value: idl.VI(100)}
+	i2 := &idl.Const{Name: "BurstRate", Type: i32, Value: idl.VI(200)}
+	inc.Add(i1)
+	inc.Add(i2)
+	inc.Add(&idl.Struct{Cat: "struct", Name: "IS", Fields: []*idl.Field{fld(1, "v", i32, idl.ReqDefault, nil)}})
+	main = &idl.File{Path: "cmain.thrift", Includes: []*idl.Include{{Path: "cinc.thrift", File: inc}}, Namespaces: []*idl.Namespace{{Lang: "go", Name: ns + ".cmain"}}}
+	m1 := &idl.Const{Name: "max_size", Type: i32, Value: idl.VI(10)}
+	m2 := &idl.Const{Name: "MaxSize", Type: i32, Value: idl.VI(20)}
+	m3 := &idl.Const{Name: "Max_size", Type: i32, Value: idl.VI(30)}
+	s1 := &idl.Const{Name: "label_text", Type: str, Value: idl.VS("first")}
+	s2 := &idl.Const{Name: "LabelText", Type: str, Value: idl.VS("second")}
+	for _, c := range []*idl.Const{m1, m2, m3, s1, s2} {
+		main.Add(c)
+	}
+	add := func(n string, t *idl.Type, v *idl.Value) { ways = append(ways, &Way{Name: n, T: t, V: v}) }
+	add("collide_first", i32, idl.VC(m1))
+	add("collide_second", i32, idl.VC(m2))
+	add("collide_third", i32, idl.VC(m3))
+	add("collide_str_second", str, idl.VC(s2))
+	add("collide_inc_first", i32, idl.VC(i1))
+	add("collide_inc_second", i32, idl.VC(i2))
+	add("collide_list", idl.ListOf(i32), idl.VL(idl.VC(m1), idl.VC(m2), idl.VC(m3), idl.VC(i1), idl.VC(i2)))
+	add("collide_map", idl.MapOf(str, i32), idl.VM([2]*idl.Value{idl.VC(s1), idl.VC(m2)}, [2]*idl.Value{idl.VC(s2), idl.VC(i2)}))
+	return
+}
